@@ -345,6 +345,10 @@ public:
 	splinetable& operator=(splinetable&& other){
 		if(&other==this)
 			return(*this);
+		//Take the other table's contents and leave it empty; what this table held
+		//before is released here (by old's destructor, with the allocator it came
+		//from), not whenever the moved-from object happens to be destroyed.
+		splinetable old(std::move(*this));
 		using std::swap;
 		swap(ndim,other.ndim);
 		swap(order,other.order);
